@@ -2,6 +2,7 @@ package model
 
 import (
 	"fmt"
+	"strings"
 
 	"pgregory.net/rapid"
 )
@@ -43,6 +44,10 @@ type GenConfig struct {
 
 	// AliasKeyPct: chance (percent) that a map key is a named alias of a primitive when one is in scope.
 	AliasKeyPct int
+
+	// BulkStreamPct: chance (percent) that the first protocol gets a trailing stream of records holding
+	// fixed-width bulk data (arrays and vectors of floats, complex numbers, bytes).
+	BulkStreamPct int
 
 	// ArgRefPct: chance (percent) that a generic argument is a reference to a non-generic named
 	// type (record, enum, alias) instead of the default mix; 0 keeps the default distribution.
@@ -988,7 +993,107 @@ func GenPackage(t *rapid.T, cfg *GenConfig) *Package {
 		}
 		root.Defs = append(root.Defs, d)
 	}
+	if cfg.BulkStreamPct > 0 && g.chance("bulkStream", cfg.BulkStreamPct) {
+		addBulkStream(root)
+	}
+	if cfg.Excl["union-tags-by-variant-type"] {
+		alignUnionTags(root, cfg)
+	}
 	return root
+}
+
+// addBulkStream gives the first protocol a trailing stream step whose items are records made of
+// fixed-width bulk data (the shapes that readers and writers copy with a single memcpy / buffer view):
+// dynamic and known-rank arrays, variable-length and fixed vectors of floats, complex numbers and bytes,
+// followed by a string so that every item ends with data read after the arrays.
+func addBulkStream(root *Package) {
+	if root.Find("BulkRec") != nil {
+		return
+	}
+	var proto *Def
+	for _, d := range root.Defs {
+		if d.Kind == DProtocol {
+			proto = d
+			break
+		}
+	}
+	if proto == nil {
+		return
+	}
+	for _, f := range proto.Fields {
+		if f.Name == "bulk" {
+			return
+		}
+	}
+	two, three := uint64(2), uint64(3)
+	rec := &Def{Kind: DRecord, Name: "BulkRec", Fields: []Field{
+		{Name: "idx", Type: Prim("uint32")},
+		{Name: "samples", Type: DynArray(Prim("complexfloat32"))},
+		{Name: "trace", Type: Vector(Prim("float32"))},
+		{Name: "image", Type: &Type{Kind: KArray, Elem: Prim("float64"), HasDims: true, Dims: []Dim{{Name: "y"}, {Name: "x"}}}},
+		{Name: "raw", Type: Vector(Prim("uint8"))},
+		{Name: "corner", Type: &Type{Kind: KArray, Elem: Prim("float32"), HasDims: true, Dims: []Dim{{Len: &two}, {Len: &three}}}},
+		{Name: "label", Type: Prim("string")},
+	}}
+	// insert before the protocols so that the plain emission order stays "types first"
+	var defs []*Def
+	inserted := false
+	for _, d := range root.Defs {
+		if d.Kind == DProtocol && !inserted {
+			defs = append(defs, rec)
+			inserted = true
+		}
+		defs = append(defs, d)
+	}
+	root.Defs = defs
+	proto.Fields = append(proto.Fields, Field{Name: "bulk", Type: Stream(Ref(root.Namespace, "BulkRec"))})
+}
+
+// alignUnionTags (generator switch union-tags-by-variant-type): where two unions of the layout have the same
+// case types after alias resolution but different tags, the later one takes over the tags of the earlier one
+// (generated C++ NDJSON code keys its union converters by the C++ variant type, so the tags of one of them
+// would be used for both). Rewrites are counted as exclusions.
+func alignUnionTags(root *Package, cfg *GenConfig) {
+	env := NewEnv(root)
+	type first struct {
+		explicit bool
+		tags     []string
+	}
+	seen := map[string]first{}
+	for _, p := range root.AllPackages() {
+		for _, d := range p.Defs {
+			DefTypes(d, func(t *Type) {
+				Walk(t, func(u *Type) {
+					if u.Kind != KUnion {
+						return
+					}
+					var key []string
+					for _, c := range u.Cases {
+						if c == nil {
+							key = append(key, "null")
+						} else {
+							key = append(key, env.Canon(c))
+						}
+					}
+					k := strings.Join(key, " | ")
+					tags := append([]string(nil), u.Tags...)
+					f, ok := seen[k]
+					if !ok {
+						seen[k] = first{u.ExplicitTags, tags}
+						return
+					}
+					same := f.explicit == u.ExplicitTags && (!u.ExplicitTags || strings.Join(f.tags, ",") == strings.Join(tags, ","))
+					if !same {
+						u.ExplicitTags = f.explicit
+						u.Tags = append([]string(nil), f.tags...)
+						if cfg.ExclCount != nil {
+							cfg.ExclCount["union-tags-by-variant-type"]++
+						}
+					}
+				})
+			})
+		}
+	}
 }
 
 func envOf(ps []*Package) *Env {
